@@ -88,6 +88,9 @@ def inject(c, fault, meth):
     elif fault == 'horizon_in_ode':
         c.x3 = st.state(); st.set_der(c.x3, c.u * st.T)
     elif fault == 'roots_shooting': st.subject_to(c.x <= 7, grid='integrator_roots')
+    elif fault == 'inf_no_guarantee':
+        st.method((MultipleShooting if meth == 'MS' else SingleShooting)(N=2, intg='expl_euler'))
+        st.subject_to(c.x <= 7, grid='inf')
     else: raise ValueError(fault)
 
 
